@@ -1,0 +1,140 @@
+//go:build verif
+
+// Contracts for the deductive verifier in /verif (comment-only; never compiled without the tag).
+
+package imperatives
+
+// error values created by package initialisers (errors.New never returns nil) and never reassigned
+//@ global_nonnil imperatives.errFmtAddRoute, imperatives.errFmtAddBlack, imperatives.errFmtAddAgg, imperatives.errFmtAddRouteGrafanaNet, imperatives.errFmtAddRouteKafkaMdm, imperatives.errFmtAddRoutePubSub, imperatives.errFmtAddDest, imperatives.errFmtAddRewriter, imperatives.errFmtModDest, imperatives.errFmtModRoute
+
+// ---------------------------------------------------------------- readDestination (C20, C14): destination option strings
+// The option string is an abstract token stream (toki scanner). For every option X, optX(st, p) is the value the
+// documented semantics gives X after the tokens before position p: the documented default at the start, the
+// argument of the latest 'X=' token, untouched by every other option. (st = stream, p0 = position after the address.)
+//@ smt (declare-fun dv_flush (Int Int) Int)
+//@ smt (declare-fun dv_reconn (Int Int) Int)
+//@ smt (declare-fun dv_connBufSize (Int Int) Int)
+//@ smt (declare-fun dv_ioBufSize (Int Int) Int)
+//@ smt (declare-fun dv_spoolBufSize (Int Int) Int)
+//@ smt (declare-fun dv_spoolMaxBytesPerFile (Int Int) Int)
+//@ smt (declare-fun dv_spoolSyncEvery (Int Int) Int)
+//@ smt (declare-fun dv_spoolSyncPeriod (Int Int) Int)
+//@ smt (declare-fun dv_spoolSleep (Int Int) Int)
+//@ smt (declare-fun dv_unspoolSleep (Int Int) Int)
+//@ smt (declare-fun dv_pickle (Int Int) Bool)
+//@ smt (declare-fun dv_spool (Int Int) Bool)
+//@ smt (declare-fun dv_prefix (Int Int) Bytes)
+//@ smt (declare-fun dv_notPrefix (Int Int) Bytes)
+//@ smt (declare-fun dv_sub (Int Int) Bytes)
+//@ smt (declare-fun dv_notSub (Int Int) Bytes)
+//@ smt (declare-fun dv_regex (Int Int) Bytes)
+//@ smt (declare-fun dv_notRegex (Int Int) Bytes)
+//@ spec isDestOpt(k int) bool := k == optFlush || k == optReconn || k == optConnBufSize || k == optIoBufSize || k == optSpoolBufSize || k == optSpoolMaxBytesPerFile || k == optSpoolSyncEvery || k == optSpoolSyncPeriod || k == optSpoolSleep || k == optUnspoolSleep || k == optPickle || k == optSpool || k == optPrefix || k == optNotPrefix || k == optSub || k == optNotSub || k == optRegex || k == optNotRegex
+//@
+//@ func readDestination(s *toki.Scanner, table table.Interface, allowMatcher bool, routeKey string) (dest *destination.Destination, err error)
+//@   property C20,C14
+//@   merge_paths
+//@   requires s != nil && table != nil && table.ref != 0
+//@   let st := s.stream
+//@   let p0 := s.pos + 1
+//@   define dv_flush(st, p0) == 1000
+//@   define forall p int :: p >= p0 && tkKind(st, p) == optFlush ==> dv_flush(st, p + 2) == atoiOf(btrim(tkVal(st, p + 1)))
+//@   define forall p int :: p >= p0 && tkKind(st, p) != optFlush && isDestOpt(tkKind(st, p)) ==> dv_flush(st, p + 2) == dv_flush(st, p)
+//@   define forall p int :: p >= p0 && tkKind(st, p) == sep ==> dv_flush(st, p + 1) == dv_flush(st, p)
+//@   define dv_reconn(st, p0) == 10000
+//@   define forall p int :: p >= p0 && tkKind(st, p) == optReconn ==> dv_reconn(st, p + 2) == atoiOf(btrim(tkVal(st, p + 1)))
+//@   define forall p int :: p >= p0 && tkKind(st, p) != optReconn && isDestOpt(tkKind(st, p)) ==> dv_reconn(st, p + 2) == dv_reconn(st, p)
+//@   define forall p int :: p >= p0 && tkKind(st, p) == sep ==> dv_reconn(st, p + 1) == dv_reconn(st, p)
+//@   define dv_connBufSize(st, p0) == 30000
+//@   define forall p int :: p >= p0 && tkKind(st, p) == optConnBufSize ==> dv_connBufSize(st, p + 2) == atoiOf(btrim(tkVal(st, p + 1)))
+//@   define forall p int :: p >= p0 && tkKind(st, p) != optConnBufSize && isDestOpt(tkKind(st, p)) ==> dv_connBufSize(st, p + 2) == dv_connBufSize(st, p)
+//@   define forall p int :: p >= p0 && tkKind(st, p) == sep ==> dv_connBufSize(st, p + 1) == dv_connBufSize(st, p)
+//@   define dv_ioBufSize(st, p0) == 2000000
+//@   define forall p int :: p >= p0 && tkKind(st, p) == optIoBufSize ==> dv_ioBufSize(st, p + 2) == atoiOf(btrim(tkVal(st, p + 1)))
+//@   define forall p int :: p >= p0 && tkKind(st, p) != optIoBufSize && isDestOpt(tkKind(st, p)) ==> dv_ioBufSize(st, p + 2) == dv_ioBufSize(st, p)
+//@   define forall p int :: p >= p0 && tkKind(st, p) == sep ==> dv_ioBufSize(st, p + 1) == dv_ioBufSize(st, p)
+//@   define dv_spoolBufSize(st, p0) == 10000
+//@   define forall p int :: p >= p0 && tkKind(st, p) == optSpoolBufSize ==> dv_spoolBufSize(st, p + 2) == atoiOf(btrim(tkVal(st, p + 1)))
+//@   define forall p int :: p >= p0 && tkKind(st, p) != optSpoolBufSize && isDestOpt(tkKind(st, p)) ==> dv_spoolBufSize(st, p + 2) == dv_spoolBufSize(st, p)
+//@   define forall p int :: p >= p0 && tkKind(st, p) == sep ==> dv_spoolBufSize(st, p + 1) == dv_spoolBufSize(st, p)
+//@   define dv_spoolMaxBytesPerFile(st, p0) == 209715200
+//@   define forall p int :: p >= p0 && tkKind(st, p) == optSpoolMaxBytesPerFile ==> dv_spoolMaxBytesPerFile(st, p + 2) == atoiOf(btrim(tkVal(st, p + 1)))
+//@   define forall p int :: p >= p0 && tkKind(st, p) != optSpoolMaxBytesPerFile && isDestOpt(tkKind(st, p)) ==> dv_spoolMaxBytesPerFile(st, p + 2) == dv_spoolMaxBytesPerFile(st, p)
+//@   define forall p int :: p >= p0 && tkKind(st, p) == sep ==> dv_spoolMaxBytesPerFile(st, p + 1) == dv_spoolMaxBytesPerFile(st, p)
+//@   define dv_spoolSyncEvery(st, p0) == 10000
+//@   define forall p int :: p >= p0 && tkKind(st, p) == optSpoolSyncEvery ==> dv_spoolSyncEvery(st, p + 2) == atoiOf(btrim(tkVal(st, p + 1)))
+//@   define forall p int :: p >= p0 && tkKind(st, p) != optSpoolSyncEvery && isDestOpt(tkKind(st, p)) ==> dv_spoolSyncEvery(st, p + 2) == dv_spoolSyncEvery(st, p)
+//@   define forall p int :: p >= p0 && tkKind(st, p) == sep ==> dv_spoolSyncEvery(st, p + 1) == dv_spoolSyncEvery(st, p)
+//@   define dv_spoolSyncPeriod(st, p0) == 1000000000
+//@   define forall p int :: p >= p0 && tkKind(st, p) == optSpoolSyncPeriod ==> dv_spoolSyncPeriod(st, p + 2) == mul64(atoiOf(btrim(tkVal(st, p + 1))), 1000000)
+//@   define forall p int :: p >= p0 && tkKind(st, p) != optSpoolSyncPeriod && isDestOpt(tkKind(st, p)) ==> dv_spoolSyncPeriod(st, p + 2) == dv_spoolSyncPeriod(st, p)
+//@   define forall p int :: p >= p0 && tkKind(st, p) == sep ==> dv_spoolSyncPeriod(st, p + 1) == dv_spoolSyncPeriod(st, p)
+//@   define dv_spoolSleep(st, p0) == 500000
+//@   define forall p int :: p >= p0 && tkKind(st, p) == optSpoolSleep ==> dv_spoolSleep(st, p + 2) == atoiOf(btrim(tkVal(st, p + 1))) * 1000
+//@   define forall p int :: p >= p0 && tkKind(st, p) != optSpoolSleep && isDestOpt(tkKind(st, p)) ==> dv_spoolSleep(st, p + 2) == dv_spoolSleep(st, p)
+//@   define forall p int :: p >= p0 && tkKind(st, p) == sep ==> dv_spoolSleep(st, p + 1) == dv_spoolSleep(st, p)
+//@   define dv_unspoolSleep(st, p0) == 10000
+//@   define forall p int :: p >= p0 && tkKind(st, p) == optUnspoolSleep ==> dv_unspoolSleep(st, p + 2) == atoiOf(btrim(tkVal(st, p + 1))) * 1000
+//@   define forall p int :: p >= p0 && tkKind(st, p) != optUnspoolSleep && isDestOpt(tkKind(st, p)) ==> dv_unspoolSleep(st, p + 2) == dv_unspoolSleep(st, p)
+//@   define forall p int :: p >= p0 && tkKind(st, p) == sep ==> dv_unspoolSleep(st, p + 1) == dv_unspoolSleep(st, p)
+//@   define dv_pickle(st, p0) == false
+//@   define forall p int :: p >= p0 && tkKind(st, p) == optPickle ==> dv_pickle(st, p + 2) == parseBoolOf(tkVal(st, p + 1))
+//@   define forall p int :: p >= p0 && tkKind(st, p) != optPickle && isDestOpt(tkKind(st, p)) ==> dv_pickle(st, p + 2) == dv_pickle(st, p)
+//@   define forall p int :: p >= p0 && tkKind(st, p) == sep ==> dv_pickle(st, p + 1) == dv_pickle(st, p)
+//@   define dv_spool(st, p0) == false
+//@   define forall p int :: p >= p0 && tkKind(st, p) == optSpool ==> dv_spool(st, p + 2) == parseBoolOf(tkVal(st, p + 1))
+//@   define forall p int :: p >= p0 && tkKind(st, p) != optSpool && isDestOpt(tkKind(st, p)) ==> dv_spool(st, p + 2) == dv_spool(st, p)
+//@   define forall p int :: p >= p0 && tkKind(st, p) == sep ==> dv_spool(st, p + 1) == dv_spool(st, p)
+//@   define dv_prefix(st, p0) == ""
+//@   define forall p int :: p >= p0 && tkKind(st, p) == optPrefix ==> dv_prefix(st, p + 2) == tkVal(st, p + 1)
+//@   define forall p int :: p >= p0 && tkKind(st, p) != optPrefix && isDestOpt(tkKind(st, p)) ==> dv_prefix(st, p + 2) == dv_prefix(st, p)
+//@   define forall p int :: p >= p0 && tkKind(st, p) == sep ==> dv_prefix(st, p + 1) == dv_prefix(st, p)
+//@   define dv_notPrefix(st, p0) == ""
+//@   define forall p int :: p >= p0 && tkKind(st, p) == optNotPrefix ==> dv_notPrefix(st, p + 2) == tkVal(st, p + 1)
+//@   define forall p int :: p >= p0 && tkKind(st, p) != optNotPrefix && isDestOpt(tkKind(st, p)) ==> dv_notPrefix(st, p + 2) == dv_notPrefix(st, p)
+//@   define forall p int :: p >= p0 && tkKind(st, p) == sep ==> dv_notPrefix(st, p + 1) == dv_notPrefix(st, p)
+//@   define dv_sub(st, p0) == ""
+//@   define forall p int :: p >= p0 && tkKind(st, p) == optSub ==> dv_sub(st, p + 2) == tkVal(st, p + 1)
+//@   define forall p int :: p >= p0 && tkKind(st, p) != optSub && isDestOpt(tkKind(st, p)) ==> dv_sub(st, p + 2) == dv_sub(st, p)
+//@   define forall p int :: p >= p0 && tkKind(st, p) == sep ==> dv_sub(st, p + 1) == dv_sub(st, p)
+//@   define dv_notSub(st, p0) == ""
+//@   define forall p int :: p >= p0 && tkKind(st, p) == optNotSub ==> dv_notSub(st, p + 2) == tkVal(st, p + 1)
+//@   define forall p int :: p >= p0 && tkKind(st, p) != optNotSub && isDestOpt(tkKind(st, p)) ==> dv_notSub(st, p + 2) == dv_notSub(st, p)
+//@   define forall p int :: p >= p0 && tkKind(st, p) == sep ==> dv_notSub(st, p + 1) == dv_notSub(st, p)
+//@   define dv_regex(st, p0) == ""
+//@   define forall p int :: p >= p0 && tkKind(st, p) == optRegex ==> dv_regex(st, p + 2) == tkVal(st, p + 1)
+//@   define forall p int :: p >= p0 && tkKind(st, p) != optRegex && isDestOpt(tkKind(st, p)) ==> dv_regex(st, p + 2) == dv_regex(st, p)
+//@   define forall p int :: p >= p0 && tkKind(st, p) == sep ==> dv_regex(st, p + 1) == dv_regex(st, p)
+//@   define dv_notRegex(st, p0) == ""
+//@   define forall p int :: p >= p0 && tkKind(st, p) == optNotRegex ==> dv_notRegex(st, p + 2) == tkVal(st, p + 1)
+//@   define forall p int :: p >= p0 && tkKind(st, p) != optNotRegex && isDestOpt(tkKind(st, p)) ==> dv_notRegex(st, p + 2) == dv_notRegex(st, p)
+//@   define forall p int :: p >= p0 && tkKind(st, p) == sep ==> dv_notRegex(st, p + 1) == dv_notRegex(st, p)
+//@   modifies s.pos
+//@   ensures[route; C20] err == nil ==> dest != nil && tkKind(st, p0 - 1) == word && dest.RouteName == routeKey
+//@   ensures[periods; C20] err == nil ==> dest.periodFlush == mul64(dv_flush(st, s.pos), 1000000) && dest.periodReConn == mul64(dv_reconn(st, s.pos), 1000000)
+//@   ensures[buffers; C20] err == nil ==> dest.connBufSize == dv_connBufSize(st, s.pos) && dest.ioBufSize == dv_ioBufSize(st, s.pos)
+//@   ensures[spool_tuning; C20] err == nil ==> dest.SpoolBufSize == dv_spoolBufSize(st, s.pos) && dest.SpoolMaxBytesPerFile == dv_spoolMaxBytesPerFile(st, s.pos) && dest.SpoolSyncEvery == dv_spoolSyncEvery(st, s.pos)
+//@        && dest.SpoolSyncPeriod == dv_spoolSyncPeriod(st, s.pos) && dest.SpoolSleep == dv_spoolSleep(st, s.pos) && dest.UnspoolSleep == dv_unspoolSleep(st, s.pos)
+//@   ensures[modes; C20] err == nil ==> dest.Pickle == dv_pickle(st, s.pos) && dest.Spool == dv_spool(st, s.pos)
+//@   ensures[filter; C20] err == nil ==> dest.Matcher.Prefix == dv_prefix(st, s.pos) && dest.Matcher.NotPrefix == dv_notPrefix(st, s.pos) && dest.Matcher.Sub == dv_sub(st, s.pos)
+//@        && dest.Matcher.NotSub == dv_notSub(st, s.pos) && dest.Matcher.Regex == dv_regex(st, s.pos) && dest.Matcher.NotRegex == dv_notRegex(st, s.pos)
+//@   loop 1:
+//@     invariant[scan] s.stream == st && s.pos >= p0 && t != nil && (t.Token == 4294967295 ==> tkKind(st, s.pos) == 4294967295)
+//@     invariant[flush] flush == dv_flush(st, s.pos)
+//@     invariant[reconn] reconn == dv_reconn(st, s.pos)
+//@     invariant[connBufSize] connBufSize == dv_connBufSize(st, s.pos)
+//@     invariant[ioBufSize] ioBufSize == dv_ioBufSize(st, s.pos)
+//@     invariant[spoolBufSize] spoolBufSize == dv_spoolBufSize(st, s.pos)
+//@     invariant[spoolMaxBytesPerFile] spoolMaxBytesPerFile == dv_spoolMaxBytesPerFile(st, s.pos)
+//@     invariant[spoolSyncEvery] spoolSyncEvery == dv_spoolSyncEvery(st, s.pos)
+//@     invariant[spoolSyncPeriod] spoolSyncPeriod == dv_spoolSyncPeriod(st, s.pos)
+//@     invariant[spoolSleep] spoolSleep == dv_spoolSleep(st, s.pos)
+//@     invariant[unspoolSleep] unspoolSleep == dv_unspoolSleep(st, s.pos)
+//@     invariant[pickle] pickle == dv_pickle(st, s.pos)
+//@     invariant[spool] spool == dv_spool(st, s.pos)
+//@     invariant[prefix] prefix == dv_prefix(st, s.pos)
+//@     invariant[notPrefix] notPrefix == dv_notPrefix(st, s.pos)
+//@     invariant[sub] sub == dv_sub(st, s.pos)
+//@     invariant[notSub] notSub == dv_notSub(st, s.pos)
+//@     invariant[regex] regex == dv_regex(st, s.pos)
+//@     invariant[notRegex] notRegex == dv_notRegex(st, s.pos)
